@@ -398,13 +398,21 @@ func (tr *fnTrans) enterBlock(b *ssa.BasicBlock) {
 	}
 	li.hdrState = st.clone()
 	// invariant on entry edges
+	var okEdges []string
 	for _, e := range edges {
 		ov := map[ssa.Value]Term{}
 		for _, ph := range phis {
 			ov[ph] = tr.val(ph.Edges[e.pidx])
 		}
-		tr.checkInvariants(li, e.guard, tr.blockOut[e.p], ov, "entry")
+		goals := tr.checkInvariants(li, e.guard, tr.blockOut[e.p], ov, "entry")
+		okEdges = append(okEdges, and(append([]string{e.guard}, goals...)...))
 	}
+	// The header is only entered (as far as the rest of the proof is concerned) along an edge on which the
+	// invariants held: otherwise assuming an invariant that mentions nothing the loop changes would also "prove"
+	// its own entry obligation.
+	hdrOK := tr.c.freshConst(fmt.Sprintf("hdrok%d", b.Index), "Bool")
+	tr.asserts = append(tr.asserts, app("=", hdrOK, or(okEdges...)))
+	tr.guard = hdrOK
 	// assume invariants at the header
 	ev := tr.loopEval(li, tr.cur, nil)
 	for _, inv := range tr.autoInvariants(li, phis, nil, tr.cur) {
@@ -500,7 +508,17 @@ func (tr *fnTrans) autoInvariants(li *loopInfo, phis []*ssa.Phi, ov map[ssa.Valu
 	return out
 }
 
-func (tr *fnTrans) checkInvariants(li *loopInfo, guard string, st *State, ov map[ssa.Value]Term, what string) {
+func (tr *fnTrans) checkInvariants(li *loopInfo, guard string, st *State, ov map[ssa.Value]Term, what string) []string {
+	n0 := len(tr.obls)
+	tr.checkInvariants1(li, guard, st, ov, what)
+	var goals []string
+	for _, o := range tr.obls[n0:] {
+		goals = append(goals, o.Goal)
+	}
+	return goals
+}
+
+func (tr *fnTrans) checkInvariants1(li *loopInfo, guard string, st *State, ov map[ssa.Value]Term, what string) {
 	what = fmt.Sprintf("%s#%d", what, tr.ord(fmt.Sprintf("loop%d.%s", li.ord, what)))
 	var phis []*ssa.Phi
 	for _, ins := range li.header.Instrs {
